@@ -69,7 +69,7 @@ class Executor3(Executor2):
             f = self.schema[key]
             arr, ln = self.heap_arrays(st, key, f)
             return z3.Select(arr, obj.t), z3.Select(ln, obj.t), obj.t, key
-        _, el, n = lv.x  # value list
+        el, n = lv.x[1], lv.x[2]  # value list
         return el, n, None, None
 
     def _pos_arr(self, st, cls):
@@ -77,7 +77,18 @@ class Executor3(Executor2):
         arr, _ = self.heap_arrays(st, key, f)
         return key, arr
 
-    def _set_list(self, st, lv, el, n, pos=None):
+    def _own_arr(self, st, cls):
+        key, f = self.field(cls, "g_owner")
+        arr, _ = self.heap_arrays(st, key, f)
+        return key, arr
+
+    def _owner_of(self, lv):
+        """owner term of a list value (None for a detached value list)"""
+        if lv.x[0] == "heap":
+            return lv.x[1].t
+        return lv.x[3] if len(lv.x) > 3 else None
+
+    def _set_list(self, st, lv, el, n, pos=None, own=None):
         if lv.x[0] != "heap":
             raise Unsupported("mutation of a list copy")
         _, obj, attr, key, epoch = lv.x
@@ -87,6 +98,9 @@ class Executor3(Executor2):
         if pos is not None:
             pk, _ = self._pos_arr(st, lv.cls)
             st.heap[pk] = (pos, None)
+        if own is not None:
+            ok, _ = self._own_arr(st, lv.cls)
+            st.heap[ok] = (own, None)
 
     def _define(self, name, lam):
         if self.extra_axioms_list is None:
@@ -108,10 +122,14 @@ class Executor3(Executor2):
     def listinv(self, st, lv):
         el, n, owner, key = self._rl(st, lv)
         _, pos = self._pos_arr(st, lv.cls)
+        _, own = self._own_arr(st, lv.cls)
+        ow = self._owner_of(lv)
         k = z3.Int("k!li%d" % self._nf())
-        body = z3.Implies(z3.And(0 <= k, k < n), z3.And(z3.Select(el, k) != NONE, z3.Select(pos, z3.Select(el, k)) == k))
-        q = z3.ForAll([k], body)
-        return z3.And(n >= 0, q)
+        conj = [z3.Select(el, k) != NONE, z3.Select(pos, z3.Select(el, k)) == k]
+        if ow is not None:
+            conj.append(z3.Select(own, z3.Select(el, k)) == ow)
+        body = z3.Implies(z3.And(0 <= k, k < n), z3.And(*conj))
+        return z3.And(n >= 0, z3.ForAll([k], body))
 
     def need_listinv(self, st, lv, ln, what):
         if self.spec:
@@ -122,8 +140,13 @@ class Executor3(Executor2):
     def member(self, st, lv, x):
         el, n, owner, key = self._rl(st, lv)
         _, pos = self._pos_arr(st, lv.cls)
+        _, own = self._own_arr(st, lv.cls)
+        ow = self._owner_of(lv)
         p = z3.Select(pos, x)
-        return z3.And(x != NONE, 0 <= p, p < n, z3.Select(el, p) == x)
+        conj = [x != NONE, 0 <= p, p < n, z3.Select(el, p) == x]
+        if ow is not None:
+            conj.insert(1, z3.Select(own, x) == ow)
+        return z3.And(*conj)
 
     # ------------------------------------------------------------------ expression hooks
     def truthy(self, v):
@@ -206,7 +229,7 @@ class Executor3(Executor2):
         v = self.ev(e.args[0], st)
         if v.kind == "reflist":
             el, n, _, _ = self._rl(st, v)
-            return SV("reflist", None, cls=v.cls, x=("value", el, n))
+            return SV("reflist", None, cls=v.cls, x=("value", el, n, self._owner_of(v)))
         if self.lenient:
             return self.opaque()
         raise Unsupported("list() of %s" % v.kind)
@@ -257,7 +280,11 @@ class Executor3(Executor2):
             if v.kind == "none":
                 v = SV("ref", NONE, cls=base.cls)
             pk, pos = self._pos_arr(st, base.cls)
-            self._set_list(st, base, z3.Store(el, i, v.t), n, z3.Store(pos, v.t, i))
+            ok_, own = self._own_arr(st, base.cls)
+            ow = self._owner_of(base)
+            olde = z3.Select(el, i)
+            own2 = z3.Store(z3.Store(own, olde, NONE), v.t, ow)
+            self._set_list(st, base, z3.Store(el, i, v.t), n, z3.Store(pos, v.t, i), own2)
             return
         return Executor2.assign_subscript(self, st, target, v, ln)
 
@@ -297,6 +324,8 @@ class Executor3(Executor2):
     def reflist_method(self, st, lv, name, args, ln):
         el, n, owner, key = self._rl(st, lv)
         pk, pos = self._pos_arr(st, lv.cls)
+        ok_, own = self._own_arr(st, lv.cls)
+        ow = self._owner_of(lv)
         i = z3.Int("i!rl%d" % self._nf())
         y = z3.Const("y!rl%d" % self._nf(), Ref)
 
@@ -307,10 +336,6 @@ class Executor3(Executor2):
                 raise Unsupported("list element of kind %s" % a.kind)
             return a.t
 
-        if name == "append":
-            x = arg_ref(args[0])
-            self._set_list(st, lv, z3.Store(el, n, x), n + 1, z3.Store(pos, x, n))
-            return NoneV()
         if name == "index":
             x = arg_ref(args[0])
             self.need_listinv(st, lv, ln, "index")
@@ -320,6 +345,14 @@ class Executor3(Executor2):
             self.pending_raises.append(Exit("raise", xs, exc="ValueError", lineno=ln))
             st.assume(isin)
             return SV("int", z3.Select(pos, x))
+        if lv.x[0] != "heap":
+            raise Unsupported("mutation of a list copy (%s)" % name)
+        # y sits in THIS list (ghost owner), so its slot moves with the list
+        in_this = z3.Select(own, y) == ow
+        if name == "append":
+            x = arg_ref(args[0])
+            self._set_list(st, lv, z3.Store(el, n, x), n + 1, z3.Store(pos, x, n), z3.Store(own, x, ow))
+            return NoneV()
         if name == "remove":
             x = arg_ref(args[0])
             self.need_listinv(st, lv, ln, "remove")
@@ -330,11 +363,9 @@ class Executor3(Executor2):
             st.assume(isin)
             k = z3.Select(pos, x)
             el2 = self._define("rm_el", z3.Lambda([i], z3.If(i < k, z3.Select(el, i), z3.Select(el, i + 1))))
-            # members after k move one slot down
-            mem_y = z3.And(0 <= z3.Select(pos, y), z3.Select(pos, y) < n, z3.Select(el, z3.Select(pos, y)) == y)
-            pos2 = self._define("rm_pos", z3.Lambda([y], z3.If(z3.And(mem_y, z3.Select(pos, y) > k), z3.Select(pos, y) - 1,
-                                                               z3.If(y == x, z3.IntVal(-1), z3.Select(pos, y)))))
-            self._set_list(st, lv, el2, n - 1, pos2)
+            pos2 = self._define("rm_pos", z3.Lambda([y], z3.If(y == x, z3.IntVal(-1),
+                                                               z3.If(z3.And(in_this, z3.Select(pos, y) > k), z3.Select(pos, y) - 1, z3.Select(pos, y)))))
+            self._set_list(st, lv, el2, n - 1, pos2, z3.Store(own, x, NONE))
             return NoneV()
         if name == "insert":
             idx = args[0]
@@ -344,9 +375,8 @@ class Executor3(Executor2):
             self.need_listinv(st, lv, ln, "insert")
             j = z3.If(idx.t < 0, z3.If(idx.t + n < 0, z3.IntVal(0), idx.t + n), z3.If(idx.t > n, n, idx.t))
             el2 = self._define("ins_el", z3.Lambda([i], z3.If(i < j, z3.Select(el, i), z3.If(i == j, x, z3.Select(el, i - 1)))))
-            mem_y = z3.And(0 <= z3.Select(pos, y), z3.Select(pos, y) < n, z3.Select(el, z3.Select(pos, y)) == y)
-            pos2 = self._define("ins_pos", z3.Lambda([y], z3.If(y == x, j, z3.If(z3.And(mem_y, z3.Select(pos, y) >= j), z3.Select(pos, y) + 1, z3.Select(pos, y)))))
-            self._set_list(st, lv, el2, n + 1, pos2)
+            pos2 = self._define("ins_pos", z3.Lambda([y], z3.If(y == x, j, z3.If(z3.And(in_this, z3.Select(pos, y) >= j), z3.Select(pos, y) + 1, z3.Select(pos, y)))))
+            self._set_list(st, lv, el2, n + 1, pos2, z3.Store(own, x, ow))
             return NoneV()
         if name == "clear":
             self._set_list(st, lv, el, z3.IntVal(0))
@@ -354,8 +384,7 @@ class Executor3(Executor2):
         if name == "reverse":
             self.need_listinv(st, lv, ln, "reverse")
             el2 = self._define("rev_el", z3.Lambda([i], z3.Select(el, n - 1 - i)))
-            mem_y = z3.And(0 <= z3.Select(pos, y), z3.Select(pos, y) < n, z3.Select(el, z3.Select(pos, y)) == y)
-            pos2 = self._define("rev_pos", z3.Lambda([y], z3.If(mem_y, n - 1 - z3.Select(pos, y), z3.Select(pos, y))))
+            pos2 = self._define("rev_pos", z3.Lambda([y], z3.If(z3.And(in_this, 0 <= z3.Select(pos, y), z3.Select(pos, y) < n), n - 1 - z3.Select(pos, y), z3.Select(pos, y))))
             self._set_list(st, lv, el2, n, pos2)
             return NoneV()
         raise Unsupported("list method %s on a reference list" % name)
@@ -406,6 +435,10 @@ class Executor3(Executor2):
         _, pos1 = self._pos_arr(st, lv.cls)
         return lv, el0, n0, el1, n1, pos0, pos1
 
+    def _mem(self, state, lv, y):
+        """pos/owner-based membership of y in the list named by lv, read in `state`"""
+        return self.member(state, lv, y)
+
     def sp_list_same(self, e, st):
         lv, el0, n0, el1, n1, pos0, pos1 = self._both(e.args[0], st)
         k = z3.Int("k!ls%d" % self._nf())
@@ -444,33 +477,38 @@ class Executor3(Executor2):
         x = self.ev(e.args[1], st)
         a = z3.Const("a!ok%d" % self._nf(), Ref)
         b = z3.Const("b!ok%d" % self._nf(), Ref)
-
-        def mem(pos, el, n, y):
-            return z3.And(y != NONE, 0 <= z3.Select(pos, y), z3.Select(pos, y) < n, z3.Select(el, z3.Select(pos, y)) == y)
-
-        body = z3.Implies(z3.And(a != x.t, b != x.t, mem(pos0, el0, n0, a), mem(pos0, el0, n0, b), mem(pos1, el1, n1, a), mem(pos1, el1, n1, b),
-                                 z3.Select(pos0, a) < z3.Select(pos0, b)), z3.Select(pos1, a) < z3.Select(pos1, b))
+        body = z3.Implies(z3.And(a != x.t, b != x.t, self._mem(self.old_state, lv, a), self._mem(self.old_state, lv, b),
+                                 self._mem(st, lv, a), self._mem(st, lv, b), z3.Select(pos0, a) < z3.Select(pos0, b)),
+                          z3.Select(pos1, a) < z3.Select(pos1, b))
         return SV("bool", z3.ForAll([a, b], body))
 
     def sp_pos_frame(self, e, st):
-        """pos_frame(L1, L2, ...): the ghost position of every node that is in none of the listed
-        lists (neither before nor now) is unchanged"""
+        """pos_frame(L1, L2, ..., x1, x2, ...): ghost position and ghost owner are unchanged for every node
+        that was NOT sitting in one of the listed lists before the call and is none of the listed nodes xi
+        (the only nodes an operation may move into a list)"""
         if self.old_state is None:
             raise Unsupported("pos_frame outside a postcondition")
         y = z3.Const("y!pf%d" % self._nf(), Ref)
         conds = []
         cls = None
         for a in e.args:
-            lv, el0, n0, el1, n1, pos0, pos1 = self._both(a, st)
-            cls = lv.cls
-            own = lv.x[1].t
-            m0 = z3.And(own != NONE, 0 <= z3.Select(pos0, y), z3.Select(pos0, y) < n0, z3.Select(el0, z3.Select(pos0, y)) == y)
-            m1 = z3.And(own != NONE, 0 <= z3.Select(pos1, y), z3.Select(pos1, y) < n1, z3.Select(el1, z3.Select(pos1, y)) == y)
-            conds.append(z3.Not(m0))
-            conds.append(z3.Not(m1))
+            v = self.ev(a, self.old_state)
+            if v.kind == "reflist":
+                cls = v.cls
+                ow = self._owner_of(v)
+                _, own0 = self._own_arr(self.old_state, cls)
+                conds.append(z3.Or(ow == NONE, z3.Select(own0, y) != ow))
+            elif v.kind == "ref":
+                conds.append(y != v.t)
+            elif v.kind == "none":
+                pass
+            else:
+                raise Unsupported("pos_frame argument of kind %s" % v.kind)
         _, p0 = self._pos_arr(self.old_state, cls)
         _, p1 = self._pos_arr(st, cls)
-        return SV("bool", z3.ForAll([y], z3.Implies(z3.And(*conds), z3.Select(p1, y) == z3.Select(p0, y))))
+        _, o0 = self._own_arr(self.old_state, cls)
+        _, o1 = self._own_arr(st, cls)
+        return SV("bool", z3.ForAll([y], z3.Implies(z3.And(*conds), z3.And(z3.Select(p1, y) == z3.Select(p0, y), z3.Select(o1, y) == z3.Select(o0, y)))))
 
     def sp_lists_frame(self, e, st):
         """lists_frame('Class', L1, L2, ...): the child list of every object other than the owners of
@@ -499,7 +537,7 @@ class Executor3(Executor2):
         if v.kind == "reflist" and v.x[0] == "heap":
             # freeze to a value list of the old state
             el, n, _, _ = self._rl(self.old_state, v)
-            return SV("reflist", None, cls=v.cls, x=("value", el, n))
+            return SV("reflist", None, cls=v.cls, x=("value", el, n, self._owner_of(v)))
         return v
 
     def sp_pre(self, e, st):
@@ -507,7 +545,7 @@ class Executor3(Executor2):
         if v.kind == "reflist" and v.x[0] == "heap":
             ps = self.pre_states[-1]
             el, n, _, _ = self._rl(ps, v)
-            return SV("reflist", None, cls=v.cls, x=("value", el, n))
+            return SV("reflist", None, cls=v.cls, x=("value", el, n, self._owner_of(v)))
         return v
 
     def bi_len_spec(self, e, st):
